@@ -99,6 +99,7 @@ func runLoaded(ld *loaded, spec *HarnessSpec, o runOpts) *OblResult {
 	curParams = o.params
 	preemptMem = o.params["PREEMPT_MEM"] == 1
 	realIPString = o.params["REAL_IPSTRING"] == 1
+	monoTime = o.params["MONO_TIME"] == 1
 	if o.tape == nil {
 		s, err := NewSolver(o.solver, o.timeout)
 		if err != nil {
